@@ -1675,8 +1675,9 @@ class WriteOnly:
         self.parts.append(s)
 
 
-def destinations(tmp, quick):
-    """[(label, open() -> (destination, close() -> text written), name seen by guess_output_format or None)]"""
+def destinations(tmp, quick, extra_names=()):
+    """[(label, open() -> (destination, close() -> text written), name seen by guess_output_format or None (0: a name that is not
+    a string))]; extra_names: more file objects opened under these names (str or bytes)"""
     import tempfile as tf
 
     def named_file(name, **kw):
@@ -1720,8 +1721,8 @@ def destinations(tmp, quick):
            ('file object, 16-byte buffer', named_file('tiny.cnf', buffering=16), 'tiny.cnf'),
            ('file object opened with a bytes path', named_file(b'bytes.cnf'), b'bytes.cnf'),
            ('file object opened with a bytes path ending in _opb', named_file(b'formula_opb'), b'formula_opb')]
-    for nm in (DIMACS_NAMES[:6] if quick else DIMACS_NAMES) + ['y.tex', 'y.opb']:
-        out.append(('file object named %r' % nm, named_file(nm), nm))
+    for nm in (DIMACS_NAMES[:6] if quick else DIMACS_NAMES) + ['y.tex', 'y.opb'] + list(extra_names):
+        out.append(('file object named %r' % (nm,), named_file(nm), nm))
     return out
 
 
